@@ -3,8 +3,9 @@ from pyvc.contracts import REG as R
 from . import format_contracts as fc
 
 PROP = "C07"
-LEVEL = "other"
-EXPLANATION = "under construction"
+LEVEL = 'proof'
+EXPLANATION = ('Deductive: Option.__init__ and Argument.__init__ are verified for ALL integers `flags` (bit view: 14 boolean bits + an opaque high part), all kinds of names / defaults: they return normally exactly when the combination is free of the documented contradictions and the names are well-formed, raise only ValueError otherwise, and leave the normal form (one type, one name preference, consistent value mode); parse_string/boolean/int/float and Option.parse/Argument.parse return the declared type (None only when nullable) or raise ValueError only. Bounded (exhaustive): all 2^13 / 2^11 flag words x short-name presence x default kinds, all names up to length 3/4, conversions.')
+LEVEL_NOTE = ('assumes: str.isalpha is exact on ASCII and an arbitrary fixed predicate elsewhere; int()/float() of text through uninterpreted literal predicates (exact on plain digit strings); floats as reals; the name regex in three-conjunct form; CommandOption alias loop bounded only')
 TARGETS = [
     {"qual": fc.M_OPT + ":Option.__init__", "split": True},
     {"qual": fc.M_ARG + ":Argument.__init__", "split": True},
